@@ -187,10 +187,11 @@ S.ghost("fut_exc", z3.ArraySort(T.IntS, T.IntS), "per future: the exception last
 S.ghost("fut_n_res", z3.ArraySort(T.IntS, T.IntS), "per future: number of set_result calls")
 S.ghost("fut_res", z3.ArraySort(T.IntS, T.IntS), "per future: the result last set", elem="obj")
 S.ghost("joined", z3.ArraySort(T.IntS, T.BoolS), "processes on which join() was called")
-S.ghost("killed", z3.ArraySort(T.IntS, T.BoolS), "processes on which kill_process_tree() was called")
+S.ghost("killed", z3.ArraySort(T.IntS, T.BoolS), "pids that were sent SIGKILL (or found already gone)")
 S.ghost("sem_released", z3.ArraySort(T.IntS, T.IntS), "per semaphore: number of release() calls")
 S.ghost("n_sentinels", T.IntS, "number of None sentinels successfully put on the call queue")
 S.ghost("started", z3.ArraySort(T.IntS, T.BoolS), "processes on which start() was called")
+S.ghost("proc_of_pid", z3.ArraySort(T.IntS, T.IntS), "pid -> the process object started under it", elem="obj")
 S.ghost("pid_live", z3.ArraySort(T.IntS, T.BoolS), "pids of children that were started and not yet reaped")
 S.assumption("A-pids", "the keys of an executor's process table are pids of started, un-reaped children; the OS never gives a new child the pid of an un-reaped one")
 
@@ -450,8 +451,12 @@ def _pjoin(eng, st, self_v, args, kwargs, node):
 
 c = S.ext("Process.is_alive", cite="BaseProcess.is_alive(): volatile")
 c.param("self", T.Ref("Process")).returns(T.Bool).modifies()
-c = S.ext("Process.kill", cite="BaseProcess.kill()")
-c.param("self", T.Ref("Process")).event("proc_kill", "self").modifies()
+@_impl("Process.kill", cite="BaseProcess.kill(): SIGKILL to the child")
+def _pkill(eng, st, self_v, args, kwargs, node):
+    pid, _ = st.read_field(self_v, "pid")
+    st.ghost_set("killed", z3.Store(st.ghost_get("killed"), pid.t, z3.BoolVal(True)))
+    st.emit("proc_kill", [self_v], eng.site(node))
+    return [eng.val(st, NONE)]
 
 
 @_impl("Process.start", cite="BaseProcess.start(): spawns the child; pid is set and is not the pid of another live child")
@@ -461,6 +466,7 @@ def _pstart(eng, st, self_v, args, kwargs, node):
     live = st.ghost_get("pid_live")
     st.assume(z3.Not(z3.Select(live, pid)))       # A-pids (kernel)
     st.ghost_set("pid_live", z3.Store(live, pid, z3.BoolVal(True)))
+    st.ghost_set("proc_of_pid", z3.Store(st.ghost_get("proc_of_pid"), pid, self_v.t))
     st.write_field(self_v, "pid", VInt(pid))
     g = st.ghost_get("started")
     st.ghost_set("started", z3.Store(g, self_v.t, z3.BoolVal(True)))
